@@ -5,6 +5,7 @@ use crate::dev::MemDev;
 use crate::gen::{self, BlobSpec, ImageSpec, ProtoOpts, RepSpec};
 use crate::kit::Src;
 use e57::*;
+use std::result::Result;
 use e57ref::fx::F64;
 use e57ref::scene::{self as sc, Cloud, CloudMeta, Rec, RepKind, Scene, Val, DT};
 use serde::{Deserialize, Serialize};
@@ -484,3 +485,95 @@ pub fn free_blobs(p: &Program) -> Vec<&BlobSpec> {
 
 #[allow(dead_code)]
 pub fn unused(_: sc::Image) {}
+
+/// Write a complete scene (explicit points) through the public writer API.
+pub fn write_scene(scene: &Scene) -> Result<Vec<u8>, String> {
+    let dev = MemDev::new();
+    let h = dev.handle();
+    let mut w = E57Writer::new(dev, &scene.guid).map_err(|e| format!("E57Writer::new: {e}"))?;
+    for (p, u) in &scene.extensions {
+        w.register_extension(Extension::new(p, u)).map_err(|e| format!("register_extension: {e}"))?;
+    }
+    w.set_creation(scene.creation.as_ref().map(dt_to_e57));
+    w.set_coordinate_metadata(scene.coord_meta.clone());
+    for (i, c) in scene.clouds.iter().enumerate() {
+        let proto: Vec<Record> = c.proto.iter().map(rec_to_e57).collect();
+        let mut pw = w.add_pointcloud(c.meta.guid.as_deref().unwrap_or("{no-guid}"), proto).map_err(|e| format!("cloud {i}: add_pointcloud: {e}"))?;
+        apply_cloud_meta(&mut pw, &c.meta);
+        for (k, pt) in c.points.iter().enumerate() {
+            let vals: Vec<RecordValue> = pt.iter().zip(c.proto.iter()).map(|(v, r)| val_to_e57(v, &r.ty)).collect();
+            pw.add_point(vals).map_err(|e| format!("cloud {i}: add_point#{k}: {e}"))?;
+        }
+        pw.finalize().map_err(|e| format!("cloud {i}: finalize: {e}"))?;
+    }
+    for (i, im) in scene.images.iter().enumerate() {
+        let spec = ImageSpec {
+            guid: im.guid.clone().unwrap_or_else(|| "{no-guid}".into()),
+            name: im.name.clone(),
+            description: im.description.clone(),
+            assoc_guid: im.assoc_guid.clone(),
+            sensor_vendor: im.sensor_vendor.clone(),
+            sensor_model: im.sensor_model.clone(),
+            sensor_serial: im.sensor_serial.clone(),
+            acquisition: im.acquisition.clone(),
+            pose: im.pose.clone(),
+            visual: None,
+            projection: None,
+            finalize: true,
+        };
+        // blobs with explicit bytes: drive the image writer directly
+        let mut iw = w.add_image(&spec.guid).map_err(|e| format!("image {i}: add_image: {e}"))?;
+        if let Some(v) = &spec.name {
+            iw.set_name(v);
+        }
+        if let Some(v) = &spec.description {
+            iw.set_description(v);
+        }
+        if let Some(v) = &spec.assoc_guid {
+            iw.set_pointcloud_guid(v);
+        }
+        if let Some(v) = &spec.sensor_vendor {
+            iw.set_sensor_vendor(v);
+        }
+        if let Some(v) = &spec.sensor_model {
+            iw.set_sensor_model(v);
+        }
+        if let Some(v) = &spec.sensor_serial {
+            iw.set_sensor_serial(v);
+        }
+        if let Some(v) = &spec.acquisition {
+            iw.set_acquisition(dt_to_e57(v));
+        }
+        if let Some(v) = &spec.pose {
+            iw.set_transform(pose_to_e57(v));
+        }
+        for r in [&im.visual, &im.projection].into_iter().flatten() {
+            let fmt = if r.jpeg { ImageFormat::Jpeg } else { ImageFormat::Png };
+            let mut data_r: &[u8] = &r.data;
+            let mut mask_r: Option<&[u8]> = r.mask.as_deref();
+            let mask_dyn: Option<&mut dyn std::io::Read> = mask_r.as_mut().map(|m| m as &mut dyn std::io::Read);
+            let (wd, ht) = (r.width as u32, r.height as u32);
+            let res = match r.kind {
+                RepKind::Visual => iw.add_visual_reference(fmt, &mut data_r, VisualReferenceImageProperties { width: wd, height: ht }, mask_dyn),
+                RepKind::Pinhole => iw.add_pinhole(
+                    fmt,
+                    &mut data_r,
+                    PinholeImageProperties { width: wd, height: ht, focal_length: r.props[0].0, pixel_width: r.props[1].0, pixel_height: r.props[2].0, principal_x: r.props[3].0, principal_y: r.props[4].0 },
+                    mask_dyn,
+                ),
+                RepKind::Spherical => iw.add_spherical(fmt, &mut data_r, SphericalImageProperties { width: wd, height: ht, pixel_width: r.props[0].0, pixel_height: r.props[1].0 }, mask_dyn),
+                RepKind::Cylindrical => iw.add_cylindrical(
+                    fmt,
+                    &mut data_r,
+                    CylindricalImageProperties { width: wd, height: ht, radius: r.props[0].0, principal_y: r.props[1].0, pixel_width: r.props[2].0, pixel_height: r.props[3].0 },
+                    mask_dyn,
+                ),
+            };
+            res.map_err(|e| format!("image {i}: add {:?}: {e}", r.kind))?;
+        }
+        iw.finalize().map_err(|e| format!("image {i}: finalize: {e}"))?;
+    }
+    w.finalize().map_err(|e| format!("finalize: {e}"))?;
+    drop(w);
+    Ok(h.bytes())
+}
